@@ -125,13 +125,13 @@ func RefRenderCond(c stackage.Condition) (string, bool) {
 		return "", true
 	}
 	var text string
-	if st, isStack := stackage.ConvertStack(sn.Ex); isStack {
+	if st, isStack := AsStack(sn.Ex); isStack {
 		t, ok := RefRenderStack(st)
 		if !ok {
 			return "", false
 		}
 		text = t
-	} else if ic, isCond := stackage.ConvertCondition(sn.Ex); isCond {
+	} else if ic, isCond := AsCond(sn.Ex); isCond {
 		t, ok := RefRenderCond(ic)
 		if !ok {
 			return "", false
@@ -182,7 +182,7 @@ func RefRenderStack(s stackage.Stack) (string, bool) {
 		if e == nil {
 			return "", false // nil elements: statement silent
 		}
-		if x, isStack := stackage.ConvertStack(e); isStack {
+		if x, isStack := AsStack(e); isStack {
 			if !x.IsInit() {
 				return "", false
 			}
@@ -199,7 +199,7 @@ func RefRenderStack(s stackage.Stack) (string, bool) {
 				r = w + " " + r
 			}
 			part = r
-		} else if cd, isCond := stackage.ConvertCondition(e); isCond {
+		} else if cd, isCond := AsCond(e); isCond {
 			if !cd.IsInit() {
 				return "", false
 			}
